@@ -43,6 +43,9 @@ var propC05 = &pProp{
 					if r.chance(1, 3) {
 						o.InitState = append(o.InitState, [2]string{"w0", "V:j1"})
 					}
+					if r.chance(1, 3) {
+						o.InitState = append(o.InitState, [2]string{"m0", "M:q1"})
+					}
 				}
 				plan := drawPlan(r, true)
 				plan.MisbehavePct = []int{0, 25, 60}[r.intn(3)]
